@@ -11,7 +11,7 @@ def WfBlocks (vec : List Block) : Prop := ∀ b ∈ vec, b.1 < b.2 ∧ b.2 < W
 /-- no private block starts before the message and ends inside or after it -/
 def NoStraddle (vec : List Block) (offset : Nat) : Prop := ∀ b ∈ vec, offset ≤ b.1 ∨ b.2 ≤ offset
 
-theorem filterMap_congr' {α β : Type} {f g : α → Option β} {l : List α} (h : ∀ x ∈ l, f x = g x) :
+theorem filterMap_congr_ptw {α β : Type} {f g : α → Option β} {l : List α} (h : ∀ x ∈ l, f x = g x) :
     l.filterMap f = l.filterMap g := by
   induction l with
   | nil => rfl
@@ -47,7 +47,7 @@ test `new_block.first < buff_size` drops the block, although `[0, min(e − o, n
 theorem shift_frame_spec_partial (vec : List Block) (offset n : Nat) (hw : WfBlocks vec) (hn : offset + n < W)
     (hs : NoStraddle vec offset) : shiftFrame vec offset n = shiftFrameSpec vec offset n := by
   unfold shiftFrame shiftFrameSpec
-  apply filterMap_congr'
+  apply filterMap_congr_ptw
   intro blk hb
   obtain ⟨h1, h2⟩ := hw blk hb
   have h3 := hs blk hb
@@ -81,7 +81,7 @@ theorem shift_frame_counterexample :
 theorem shift_frame_spec_fixed (vec : List Block) (offset n : Nat) (hw : WfBlocks vec) (ho : offset < W) :
     shiftFrameFixed vec offset n = shiftFrameSpec vec offset n := by
   unfold shiftFrameFixed shiftFrameSpec
-  apply filterMap_congr'
+  apply filterMap_congr_ptw
   intro blk hb
   obtain ⟨h1, h2⟩ := hw blk hb
   rw [frameOne_eq]
